@@ -6,7 +6,7 @@ CFG = P(
         rule="a case is one (function, mode, input string) triple (for netloc: (host, port, default)); inputs are enumerated by odometer over fixed alphabets so all triples are distinct; every case is non-trivial (it calls the real function and is decided by a reference model)",
         bounds={
             "quick": "base64 encode+round trip: all byte strings of length 0..2 x 3 alphabet modes, 16^3 length-3 and 4^4..4^8 longer strings; strict decode: all strings of length 0..4 over 15 symbols, all strings of length 5..8 over 6 symbols, every single-byte substitution of the encodings of all inputs of length 1..4 over 4 symbols and 5..6 over 2 symbols (both alphabets each); rot13 and the five escaper variants on all byte strings of length 0..2 (+ 12^3+12^4 longer ones); netloc 399 hosts x all 65536 ports",
-            "thorough": "as quick, with ALL 2^24 byte strings of length 3 through encode/decode and single-byte substitutions for all inputs of length 1..7 over 4 symbols",
+            "thorough": "as quick, with ALL 2^24 byte strings of length 3 through encode/decode and single-byte substitutions for all inputs of length 1..6 over 4 symbols and 7..9 over 2 symbols",
         },
         explanation="E-ENUM over the real functions; oracle = independent RFC 4648 encoder and strict decoder, arithmetic rot13, percent-decoder and C-style unescaper, the (host, port) pair; quick-tier sets are replayed through Python base64/codecs/urllib",
         assumptions=[
